@@ -452,11 +452,17 @@ class Fw:
     def exclusion_defines(self, root):
         return [f['exclude_define'] for f in self.findings_for(root) if f.get('exclude_define')]
 
-    def handle(self, res, harness, defines=(), stack_mb=None, crash_ok_msgs=()):
-        """process one solver result: SUCCESS -> ok; FAILURE -> replay, classify; else problem"""
+    def handle(self, res, harness, defines=(), stack_mb=None, crash_ok_msgs=(), best_effort=False):
+        """process one solver result: SUCCESS -> ok; FAILURE -> replay, classify; else problem.
+        best_effort: a query known to be at the edge of feasibility; no verdict is recorded as inconclusive (never as success)
+        without failing the whole check"""
         lab = res['label']
         if res['status'] == 'SUCCESS':
             return True
+        if res['status'] == 'TIMEOUT' and best_effort:
+            res['kind'] = 'best-effort'
+            self.notes.append('best-effort obligation without verdict (outside the claim): ' + lab)
+            return False
         if res['status'] in ('TIMEOUT', 'ERROR'):
             self.problems.append('%s: solver %s %s' % (lab, res['status'], res.get('detail', '')[:800]))
             return False
@@ -596,8 +602,10 @@ def std_rules(string=None, vector=None, table=33, setchar=12, extra=()):
     r.append((r'__vstd_fmt_u?int', 22))
     r.append((r'__vstd_stoi|__vstd_stod|__vrt_stod_classify', 24))
     if table:
-        r.append((r'^_ZNK?St3mapI', table))
-        r.append((r'^_ZNSt3mapI', table))
+        # the constant tables are keyed by strings or enumerations; other maps are small (VSTD_MAP_CAP)
+        r.append((r'^_ZNK?St3mapI(St6string|N9libcellml)', table))
+    r.append((r'^_ZNK?St3mapI', 10))
+    r.append((r'^_ZNK?St3setI', 10))
     if string:
         r.append((r'^_ZNK?St6string', string))
         r.append((r'^_ZStplRKSt6string|^_ZSteqRKSt6string|^_ZStltRKSt6string', string))
